@@ -11,7 +11,7 @@ func init() {
 	checks["C01"] = &checkDef{
 		run: func(c *Ctx) {
 			runG11(c.Repo, c.Rep)
-			runG1(c.Repo, c.Rep)
+			runG1(c.Raw, c.Rep)
 			g8Registry(c)
 			g13Fields(c)
 			g8CallsReachAdd(c.Repo, c.Rep)
@@ -163,7 +163,7 @@ func init() {
 	}
 	checks["C09"] = &checkDef{
 		run: func(c *Ctx) {
-			runG1(c.Repo, c.Rep)
+			runG1(c.Raw, c.Rep)
 			g23UnresolvedReported(c.Repo, c.Rep)
 			g23BreakOnlyWithoutProgress(c.Repo, c.Rep)
 			c.Rep.floor("G1", 350)
@@ -210,7 +210,7 @@ func init() {
 			g15StringCuts(c.Repo, c.Rep)
 			g21ReserveEveryCalledName(c.Repo, c.Rep)
 			// "fails exactly when …": a detected conflict or duplicate must reach the exit status
-			runG1(c.Repo, c.Rep)
+			runG1(c.Raw, c.Rep)
 			// "call identifier replaced in the AST and file rewritten": the rewrite must truncate, go to the file's own
 			// path and print the file's own tree, or a successful -autoname/-dedup run leaves a package that does not type-check
 			runG4(c.Repo, c.Rep)
